@@ -18,6 +18,8 @@ TEXT = {
          "note": "cooperative scheduling with the writer's real writes as interference; one waiter"},
  "C07": {"level": "Pending requests of four kinds + real Close with symbolic preemption at its synchronisation points; afterwards all requests completed (non-200), lock free, later requests return, in-harness Directory empty. " + B,
          "note": "preemption only at synchronisation points; OS file system replaced by a POSIX-like model"},
+ "C08": {"level": "Lock-set race candidates computed over the symbolic paths of the real muxer and storage code (writer accesses vs one reader thread per URL kind, with the mutexes held; happens-before from thread creation), every candidate confirmed by the Go race detector on a native stress run before being reported; run-time panics in any thread are findings. " + B,
+         "note": "candidates the native run does not reproduce are listed as unconfirmed in evidence and not reported; atomic-view sub-claim rests on playlists being generated under the muxer mutex"},
  "C09": {"level": "Co-simulation inside the engine: symbolic writes into the real fMP4 Muxer, then the whole real Client reads it through the real Muxer.Handle; reported tracks and every delivered unit compared with what was written; lemma on codec-string acceptance. " + B,
          "note": "client attached after the writes; fMP4 variant; transports (playlist text, fMP4 bytes) trusted lossless"},
  "C10": {"level": "Real fMP4 stream/track processors, time converter and routine pool as engine threads on harness-built fragments with symbolic base times, durations and PTS offsets: delivered units = exactly those with pts >= 0, normalised to the first leading DTS, AbsoluteTime from PROGRAM-DATE-TIME. " + B,
@@ -44,7 +46,4 @@ TEXT = {
          "note": "one producer, one consumer; preemption only at synchronisation points"},
 }
 
-NOT_APPLICABLE = {
- "C08": "data-race freedom needs an instruction-level interleaving semantics of the Go memory model; the engine explores interleavings at synchronisation points only (sound for race-free code, which is exactly what C08 asks to establish). "
-        "Atomic-view and monotonicity sub-claims are exercised by the C03-C07 harnesses; a solver-predicted race query is described in DESIGN.md but not built.",
-}
+NOT_APPLICABLE = {}
